@@ -22,7 +22,7 @@ NCNR, NOID = 2, 8
 def hash_list(xs):
     acc = 7
     for x in xs:
-        acc = (acc * 1000003 + x + 1) % HASH_P
+        acc = (acc * 1000003 + x + 1) & HASH_P
     return acc
 
 
